@@ -1,6 +1,10 @@
 """C16 - role names -> file names: plain directory entries, never colliding."""
 import itertools
-from lib import common as C
+import json
+import os
+import shutil
+import tempfile
+from lib import common as C, scen
 
 THEOREMS = [
     ("C16_encode_injective",
@@ -50,7 +54,9 @@ def run(chk):
     chk.rule = ("role names: exhaustive to length 3 (quick) / 4 (thorough) over the 14-character alphabet "
                 "of the property, random to length 64, special names; x consistent_snapshot on/off x "
                 "versions; non-trivial = name contains a byte outside [A-Za-z0-9_.~-] or is one of the "
-                "special spellings; distinct by (cs, version, name)")
+                "special spellings; distinct by (cs, version, name); plus, for 20 odd role names (thorough: 170) in both "
+                "settings, the other sites: requests and datastore files of load_delegations, files requested and "
+                "written by cache_metadata, inside a sentinel directory")
     chk.assumptions = ["Url::join / FilesystemTransport treat a percent-encoded single segment as itself "
                        "(exercised end-to-end by the C05/C10/C19 checks, not proved)"]
     chk.proof, fails = C.proof_gate("C16")
@@ -83,7 +89,94 @@ def run(chk):
         by_file.setdefault(key, name)
         if mr != ir:
             chk.broken("correspondence: model role_filename differs from DelegatedTargets::filename", desc)
+    sites(chk)
     return chk
+
+
+E2E_NAMES = [".", "..", "a/b", "a/../../x", "../x", "x.json", "a%2Fb", "%2E%2E", "%", "r?x#y", "a b", "é", "a:b",
+             "a\\b", "1.a", "A", "..%2F", "\x01z", "\U0001F600", "role"]
+
+
+def sites(chk):
+    """the other places where a delegated role's name becomes a file name: the requests of load_delegations, the
+    files it stores in the datastore, the files Repository::cache_metadata requests and writes - each run for odd
+    role names in both consistent-snapshot settings inside a sentinel directory that is listed afterwards"""
+    names = E2E_NAMES if chk.tier == "quick" else E2E_NAMES + [
+        "".join(chk.rng.choice(ALPHABET) for _ in range(chk.rng.randint(1, 6))) for _ in range(150)]
+    names = [n for n in dict.fromkeys(names) if n not in ("root", "snapshot", "targets", "timestamp")]
+    base = tempfile.mkdtemp(prefix="c16-", dir=os.path.join(C.CACHE))
+    try:
+        cases, info = [], []
+        for nm in names:
+            for cs in (False, True):
+                s = scen.Scen()
+                r, files = scen.simple_repo(s, cs=cs, root=s.root(cs=cs), delegate=nm)
+                sent = os.path.join(base, "s%d" % len(cases))
+                os.makedirs(os.path.join(sent, "ds"))
+                s.cycle(r, files)
+                cases.append({"p": 15, "docs": s.docs, "cycle": s.cycles[0], "datastore": os.path.join(sent, "ds")})
+                info.append((nm, cs, sent))
+        res = C.run_impl(cases)
+        want = C.run_model([[16, 0, 1 if cs else 0, 9, C.enc(nm)] for nm, cs, _ in info])
+        for (nm, cs, sent), r, w in zip(info, res, want):
+            chk.seen(["site", nm, cs], True)
+            chk.count("site-client")
+            desc = {"site": "client requests and datastore", "role": nm, "consistent_snapshot": cs, "result": r,
+                    "model_file_name": C.b2s(w)}
+            if not (isinstance(r, list) and len(r) == 3 and r[0][0] == 0):
+                chk.broken("a repository with delegated role %r did not load" % nm, desc)
+                continue
+            log = [C.b2s(x) for x in r[1]]
+            listing = []
+            for root_, dirs, fs in os.walk(sent):
+                for f in fs:
+                    listing.append(os.path.relpath(os.path.join(root_, f), sent))
+            desc["requests"], desc["files_below_sentinel"] = log, sorted(listing)
+            for q in log:
+                if "/" in q or q in ("", ".", ".."):
+                    chk.violation("role %r: the client requested %r, not a plain entry of the metadata directory" % (nm, q), desc)
+            stray = [f for f in listing if not f.startswith("ds/") or "/" in f[3:]]
+            if stray:
+                chk.violation("role %r: the client wrote %s, not plain entries of its datastore" % (nm, stray), desc)
+            wf = C.b2s(w)
+            if wf not in log:
+                chk.broken("correspondence: the client requested %s for role %r, the model's file name is %r" % (log[-1:], nm, wf), desc)
+            if ("ds/" + wf) not in listing:
+                chk.broken("correspondence: the datastore holds %s, the model's file name for role %r is %r" % (sorted(listing), nm, wf), desc)
+        # the cache: load from a directory, cache_metadata with root chain, list both trees, load the copy
+        ccases, cinfo = [], []
+        for nm in names:
+            for cs in (False, True):
+                s = scen.Scen()
+                r, files = scen.simple_repo(s, cs=cs, root=s.root(cs=cs), delegate=nm)
+                files["1.root.json"] = {"doc": r}
+                prog = [{"op": "load", "cache": {"root_chain": True, "subset": []}}, {"op": "use_dir", "dir": "@0"}, {"op": "load"}]
+                ccases.append({"p": 10, "docs": s.docs, "root": r, "initial": {"files": files, "targets_files": []}, "program": prog})
+                cinfo.append((nm, cs))
+        cres = C.run_impl(ccases)
+        for (nm, cs), o, w in zip(cinfo, cres, want):
+            chk.count("site-cache")
+            res = o.get("results") if isinstance(o, dict) else None
+            desc = {"site": "cache", "role": nm, "consistent_snapshot": cs, "results": res, "model_file_name": C.b2s(w)}
+            if res is None or res[0][0] != 0:
+                chk.broken("cache site: the source repository with role %r did not load: %s" % (nm, res and res[0][:1]), desc)
+                continue
+            first = res[0]
+            cache_res, listing = first[2], first[4]
+            files = ["/".join(C.b2s(c) for c in p) for p, b in listing]
+            bad = [f for f in files if not (f.startswith("<OUTSIDE>/metadata/") or f.startswith("<OUTSIDE>/targets/"))
+                   or "/" in f[len("<OUTSIDE>/metadata/"):]]
+            if bad:
+                chk.violation("role %r: caching wrote %s, not plain entries of the metadata directory" % (nm, bad[:4]), desc)
+            if cache_res[0] != 0:
+                chk.violation("role %r: caching a loadable repository failed: %s" % (nm, cache_res), desc)
+                continue
+            if ("<OUTSIDE>/metadata/" + C.b2s(w)) not in files:
+                chk.violation("role %r: the cached metadata directory %s has no file %r" % (nm, sorted(files), C.b2s(w)), desc)
+            if res[2][0] != 0:
+                chk.violation("role %r: the cached copy does not load: %s" % (nm, res[2]), desc)
+    finally:
+        shutil.rmtree(base, ignore_errors=True)
 
 
 def replay(path):
